@@ -6,6 +6,7 @@ import (
 	"encoding/json"
 	"fmt"
 	"os"
+	"path/filepath"
 	"strings"
 	"sync"
 	"testing"
@@ -348,5 +349,36 @@ func init() {
 }
 
 func TestC20(t *testing.T)       { runRegistered(t, "C20") }
+
+// FuzzC20Bytes: native coverage-guided fuzzing of the in-process handler on raw bytes (thorough tier).
+func FuzzC20Bytes(f *testing.F) {
+	for _, b := range hostileBodies {
+		f.Add([]byte(b))
+	}
+	f.Add([]byte(knownGood))
+	if files, err := filepath.Glob("/repo/httpClient/examples/*/request.json"); err == nil {
+		for _, fn := range files {
+			if b, err := os.ReadFile(fn); err == nil {
+				f.Add(b)
+			}
+		}
+	}
+	f.Fuzz(func(t *testing.T, body []byte) {
+		if len(body) > 1<<16 {
+			return
+		}
+		// keep the explored problems small (resource exhaustion by size is out of scope)
+		if strings.Count(string(body), `"id"`) > 16 || strings.Contains(string(body), "oefficient") {
+			return
+		}
+		c := C20Case{Kind: "bytes", Body: string(body)}
+		st.inc("evaluations:C20fuzz")
+		writeCurCase("C20", "C20", c)
+		if fl := judgeC20(c); fl != nil {
+			writeReplay("C20", "C20", c, fl)
+			t.Fatalf("VIOLATION-CANDIDATE property=C20 check=C20 rule=%s: %s", fl.Rule, fl.Detail)
+		}
+	})
+}
 func TestC20Server(t *testing.T) { runRegistered(t, "C20server") }
 func TestC20Fn(t *testing.T)     { runRegistered(t, "C20fn") }
